@@ -37,6 +37,11 @@ func (m c03mon) Check(s *sim.Sim, st *sim.Step) []*sim.Violation {
 	case "admin_unlock":
 		delete(m.manual, a.PID)
 	}
+	if flow := flowOf(s, rec); flow != "" && rec.DecoyCalls > 0 {
+		// the handler of this instance's login route worked on the second instance of the process (its
+		// storage, its event listeners): this instance's lock and confirm modules never got to veto
+		return []*sim.Violation{vio("C03", "login-flow-handled-by-another-instance|"+flow, "the %s request made %d backend calls on the second Authboss instance of the process: the before-auth listeners of THIS instance (lock, confirm) were not the ones consulted", flow, rec.DecoyCalls)}
+	}
 	// (i) interactive login flows
 	if flow := flowOf(s, rec); flow != "" && flow != "register" {
 		U := st.UIDOut
@@ -304,7 +309,7 @@ var c03Profile = &sim.Profile{
 func init() {
 	register(&Check{
 		ID: "C03", Level: "exploration",
-		Rule:  "histories over random load orders of lock/confirm/remember relative to the login modules and of totp/sms: correct and incorrect attempts on every login path, lock by failures / manually / expiry by clock advance placed at LockDuration-1ns and +1ns, lock acquired between the password and the 2FA step, re-started confirmation, unconfirmed accounts created by register/seeding/OAuth2. Oracle: storage is read BEFORE each request (Locked>now on the frozen virtual clock, Confirmed); if an interactive flow ends with uid=U for such an account, or the probe behind lock/confirm middleware runs for such a session user, it is a violation. distinct_nontrivial = distinct (flow, class, locked/unconfirmed account state, session state, mode, load order, outcome) signatures for locked or unconfirmed accounts only.",
+		Rule:  "histories over random load orders of lock/confirm/remember relative to the login modules and of totp/sms: correct and incorrect attempts on every login path, lock by failures / manually / expiry by clock advance placed at LockDuration-1ns and +1ns, lock acquired between the password and the 2FA step, re-started confirmation, unconfirmed accounts created by register/seeding/OAuth2. Oracle: storage is read BEFORE each request (Locked>now on the frozen virtual clock, Confirmed); if an interactive flow ends with uid=U for such an account, or the probe behind lock/confirm middleware runs for such a session user, it is a violation. In worlds with a second instance in the process, a login-type request that causes backend calls on that instance is a violation (the flow was handled by the other instance's modules; this instance's lock/confirm were not consulted). distinct_nontrivial = distinct (flow, class, locked/unconfirmed account state, session state, mode, load order, outcome) signatures for locked or unconfirmed accounts only.",
 		Units: func(t string) int { return tierN(t, 800, 30000) },
 		Run: func(c *RunCtx, unit int) {
 			r := Rng(c.Seed, "C03", unit)
